@@ -437,4 +437,106 @@ theorem filterRandomSorted_mem {perm : Int → Nat → List Nat} {n r : Nat} {gA
             · cases h
         · cases h
 
+/-! ### integer conversions in range -/
+
+theorem toInt64_of_lt (n : Nat) (h : n < two63) : toInt64 n = (n : Int) := by
+  unfold toInt64
+  have : n % two64 = n := Nat.mod_eq_of_lt (by simp only [two63, two64] at *; omega)
+  simp only [this]
+  rw [if_pos h]
+
+theorem wrap64_of_range (i : Int) (h1 : minDuration ≤ i) (h2 : i ≤ maxDuration) : wrap64 i = i := by
+  unfold wrap64 toInt64
+  simp only
+  by_cases h : (i % two64i).toNat % two64 < two63
+  · rw [if_pos h]; simp only [two63, two64, two64i, minDuration, maxDuration] at *; omega
+  · rw [if_neg h]; simp only [two63, two64, two64i, minDuration, maxDuration] at *; omega
+
+theorem toUInt64_of_nonneg (i : Int) (h1 : 0 ≤ i) (h2 : i < two64i) : toUInt64 i = i.toNat := by
+  unfold toUInt64
+  rw [Int.emod_eq_of_lt h1 h2]
+
+theorem timeSub_of_range (t u : Int) (h1 : minDuration ≤ t - u) (h2 : t - u ≤ maxDuration) :
+    timeSub t u = t - u := by
+  unfold timeSub
+  simp only
+  rw [if_neg (by omega), if_neg (by omega)]
+
+theorem durSeconds_mul (x : Nat) : durSeconds (nsPerSec * (x : Int)) = (x : Int) := by
+  unfold durSeconds
+  rw [Int.tdiv_eq_ediv_of_nonneg (by unfold nsPerSec; omega)]
+  exact Int.mul_ediv_cancel_left _ (by unfold nsPerSec; omega)
+
+/-! ### schedule -/
+
+/-- slot i of the generated list: starts at `s + B·i`, ends at `s + B·(i+1)`, belongs to `addrs[i]`
+    (B = the block time as a wrapped int64 nanosecond Duration) -/
+theorem genEvents_getElem? (bt : Int) : ∀ (addrs : List Bytes) (s : Int) (i : Nat),
+    (genEvents bt s addrs)[i]? = addrs[i]?.map (fun a =>
+      ⟨s + wrap64 (bt * nsPerSec) * i, s + wrap64 (bt * nsPerSec) * (i + 1), a⟩)
+  | [], _, _ => by simp [genEvents]
+  | a :: as, s, 0 => by simp [genEvents]
+  | a :: as, s, i + 1 => by
+    simp only [genEvents, List.getElem?_cons_succ]
+    rw [genEvents_getElem? bt as _ i]
+    congr 1
+    funext x
+    have e1 : s + wrap64 (bt * nsPerSec) + wrap64 (bt * nsPerSec) * (i : Int)
+        = s + wrap64 (bt * nsPerSec) * ((i + 1 : Nat) : Int) := by
+      rw [Int.natCast_succ, Int.mul_add, Int.mul_one]; omega
+    have e2 : s + wrap64 (bt * nsPerSec) + wrap64 (bt * nsPerSec) * ((i : Int) + 1)
+        = s + wrap64 (bt * nsPerSec) * (((i + 1 : Nat) : Int) + 1) := by
+      rw [Int.natCast_succ, Int.mul_add, Int.mul_add, Int.mul_add, Int.mul_one]; omega
+    rw [e1, e2]
+
+theorem genEvents_length (bt : Int) : ∀ (addrs : List Bytes) (s : Int), (genEvents bt s addrs).length = addrs.length
+  | [], _ => rfl
+  | _ :: as, s => by simp [genEvents, genEvents_length bt as]
+
+/-- whatever `find? (StartTime == t)` returns is slot i for some i with `t = s + B·i` -/
+theorem genEvents_find_sound (bt : Int) (t : Int) : ∀ (addrs : List Bytes) (s : Int) (p : ProducerEvent),
+    (genEvents bt s addrs).find? (fun p => p.startTime == t) = some p →
+    ∃ i : Nat, addrs[i]? = some p.producer ∧ t = s + wrap64 (bt * nsPerSec) * i
+  | [], _, _, h => by simp [genEvents] at h
+  | a :: as, s, p, h => by
+    simp only [genEvents, List.find?_cons] at h
+    split at h
+    · rename_i heq
+      cases h
+      refine ⟨0, by simp, ?_⟩
+      have : s = t := by simpa using heq
+      simp [this]
+    · obtain ⟨i, h1, h2⟩ := genEvents_find_sound bt t as _ p h
+      refine ⟨i + 1, by simpa using h1, ?_⟩
+      rw [h2, Int.natCast_succ, Int.mul_add, Int.mul_one]; omega
+
+/-- with a positive block time the slot starts are distinct, so the slot starting at `s + B·i` is found -/
+theorem genEvents_find_complete (bt : Int) (hB : 0 < wrap64 (bt * nsPerSec)) :
+    ∀ (addrs : List Bytes) (s : Int) (i : Nat) (a : Bytes), addrs[i]? = some a →
+    (genEvents bt s addrs).find? (fun p => p.startTime == s + wrap64 (bt * nsPerSec) * i) =
+      some ⟨s + wrap64 (bt * nsPerSec) * i, s + wrap64 (bt * nsPerSec) * (i + 1), a⟩
+  | [], _, _, _, h => by simp at h
+  | x :: xs, s, 0, a, h => by
+    simp only [List.getElem?_cons_zero, Option.some.injEq] at h
+    subst h
+    simp [genEvents]
+  | x :: xs, s, i + 1, a, h => by
+    simp only [List.getElem?_cons_succ] at h
+    simp only [genEvents, List.find?_cons]
+    have hpos : 0 < wrap64 (bt * nsPerSec) * ((i + 1 : Nat) : Int) :=
+      Int.mul_pos hB (by omega)
+    have hne : (s == s + wrap64 (bt * nsPerSec) * ((i + 1 : Nat) : Int)) = false := by
+      simp only [beq_eq_false_iff_ne, ne_eq]; omega
+    rw [hne]
+    simp only
+    have := genEvents_find_complete bt hB xs (s + wrap64 (bt * nsPerSec)) i a h
+    have e1 : s + wrap64 (bt * nsPerSec) + wrap64 (bt * nsPerSec) * (i : Int)
+        = s + wrap64 (bt * nsPerSec) * ((i + 1 : Nat) : Int) := by
+      rw [Int.natCast_succ, Int.mul_add, Int.mul_one]; omega
+    have e2 : s + wrap64 (bt * nsPerSec) + wrap64 (bt * nsPerSec) * ((i : Int) + 1)
+        = s + wrap64 (bt * nsPerSec) * (((i + 1 : Nat) : Int) + 1) := by
+      rw [Int.natCast_succ, Int.mul_add, Int.mul_add, Int.mul_add, Int.mul_one]; omega
+    rw [e1, e2] at this
+    exact this
+
 end ZV.Consensus
